@@ -261,18 +261,24 @@ class NPShim:
             return _map(lambda p, q: p ** q, a, b)
         return _np.power(a, b)
 
-    def maximum(self, a, b):
-        if _has_sym(a) or _has_sym(b):
-            return _map(_max2, a, b)
-        return _np.maximum(a, b)
+    def degrees(self, x):
+        return x * (180.0 / _np.pi)
 
-    def minimum(self, a, b):
-        if _has_sym(a) or _has_sym(b):
-            return _map(_min2, a, b)
-        return _np.minimum(a, b)
+    rad2deg = degrees
 
-    fmax = maximum
-    fmin = minimum
+    def radians(self, x):
+        return x * (_np.pi / 180.0)
+
+    deg2rad = radians
+
+    def arctan2(self, a, b):
+        return _map(lambda p, q: sx.uapply('atan2', p, q), a, b)
+
+    def arcsin(self, x):
+        return self._un('arcsin', lambda e: sx.uapply('asin', e), x)
+
+    def arccos(self, x):
+        return self._un('arccos', lambda e: sx.uapply('acos', e), x)
 
     def where(self, cond, a=None, b=None):
         if a is None:
@@ -283,40 +289,86 @@ class NPShim:
             return _map(lambda c, p, q: sx.ite(c, p, q) if isinstance(c, sx.SymBool) else (p if c else q), cond, a, b)
         return _np.where(cond, a, b)
 
-    def clip(self, x, lo, hi):
+    def clip(self, x, a_min=None, a_max=None, **kw):
+        lo, hi = a_min, a_max
+        if lo is None and 'min' in kw:
+            lo = kw['min']
+        if hi is None and 'max' in kw:
+            hi = kw['max']
+        if lo is None:
+            return self.minimum(x, hi)
+        if hi is None:
+            return self.maximum(x, lo)
         if _has_sym(x) or _has_sym(lo) or _has_sym(hi):
             return self.minimum(self.maximum(x, lo), hi)
         return _np.clip(x, lo, hi)
 
+    def _along(self, f, a, axis):
+        """apply a 1-D reduction along an axis of an object array"""
+        mv = _np.moveaxis(a, axis, -1)
+        out = _np.empty(mv.shape[:-1], dtype=object)
+        for idx in _np.ndindex(*mv.shape[:-1]):
+            out[idx] = f(mv[idx])
+        return _view(out)
+
     def max(self, a, axis=None, **kw):
-        if isinstance(a, _np.ndarray) and a.dtype == object and axis is None:
-            return _reduce(_max2, a.reshape(-1))
+        if isinstance(a, _np.ndarray) and a.dtype == object:
+            if axis is None:
+                return _reduce(_max2, a.reshape(-1))
+            return self._along(lambda v: _reduce(_max2, v), a, axis)
         return _np.max(a, axis=axis, **kw)
 
     def min(self, a, axis=None, **kw):
-        if isinstance(a, _np.ndarray) and a.dtype == object and axis is None:
-            return _reduce(_min2, a.reshape(-1))
+        if isinstance(a, _np.ndarray) and a.dtype == object:
+            if axis is None:
+                return _reduce(_min2, a.reshape(-1))
+            return self._along(lambda v: _reduce(_min2, v), a, axis)
         return _np.min(a, axis=axis, **kw)
 
     amax = max
     amin = min
 
     def mean(self, a, axis=None, **kw):
-        if isinstance(a, _np.ndarray) and a.dtype == object and axis is None:
-            return a.sum() / a.size if a.size else _np.float64('nan')
+        if isinstance(a, _np.ndarray) and a.dtype == object:
+            if axis is None:
+                return a.sum() / a.size if a.size else _np.float64('nan')
+            return self._along(lambda v: self.mean(v), a, axis)
         return _np.mean(a, axis=axis, **kw)
 
     def std(self, a, axis=None, ddof=0, **kw):
-        if isinstance(a, _np.ndarray) and a.dtype == object and axis is None:
-            return self.sqrt(self.var(a, ddof=ddof))
+        if isinstance(a, _np.ndarray) and a.dtype == object:
+            if axis is None:
+                return self.sqrt(self.var(a, ddof=ddof))
+            return self._along(lambda v: self.std(v, ddof=ddof), a, axis)
         return _np.std(a, axis=axis, ddof=ddof, **kw)
 
     def var(self, a, axis=None, ddof=0, **kw):
-        if isinstance(a, _np.ndarray) and a.dtype == object and axis is None:
-            m = a.sum() / a.size
-            d = a - m
-            return (d * d).sum() / (a.size - ddof)
+        if isinstance(a, _np.ndarray) and a.dtype == object:
+            if axis is None:
+                m = a.sum() / a.size
+                d = a - m
+                return (d * d).sum() / (a.size - ddof)
+            return self._along(lambda v: self.var(v, ddof=ddof), a, axis)
         return _np.var(a, axis=axis, ddof=ddof, **kw)
+
+    def sum(self, a, axis=None, **kw):
+        if isinstance(a, _np.ndarray) and a.dtype == object:
+            if axis is None:
+                return _view(a).sum()
+            return self._along(lambda v: _view(v).sum(), a, axis)
+        return _np.sum(a, axis=axis, **kw)
+
+    def nanmax(self, a, axis=None, **kw):
+        if isinstance(a, _np.ndarray) and a.dtype == object and axis is None:
+            vals = [e for e in a.reshape(-1) if not sx._isnan(e)]
+            return _reduce(_max2, vals) if vals else _np.float64('nan')
+        return _np.nanmax(a, axis=axis, **kw)
+
+    def nanmin(self, a, axis=None, **kw):
+        if isinstance(a, _np.ndarray) and a.dtype == object and axis is None:
+            vals = [e for e in a.reshape(-1) if not sx._isnan(e)]
+            return _reduce(_min2, vals) if vals else _np.float64('nan')
+        return _np.nanmin(a, axis=axis, **kw)
 
     def array_equal(self, a, b):
         return _np.array_equal(a, b)
@@ -359,5 +411,51 @@ def _numpyfy(a):
             flat[i] = sx.SymReal(sx.real_term(e), True)
     return a
 
+
+class _UFunc2:
+    """binary ufunc stand-in with reduce / accumulate (np.maximum, np.minimum)"""
+
+    def __init__(self, f, real):
+        self.f = f
+        self.real = real
+
+    def __call__(self, a, b, **kw):
+        if _has_sym(a) or _has_sym(b):
+            return _map(self.f, a, b)
+        return self.real(a, b, **kw)
+
+    def reduce(self, a, axis=0, **kw):
+        if isinstance(a, (list, tuple)):
+            if any(_has_sym(x) for x in a):
+                r = a[0]
+                for x in a[1:]:
+                    r = self(r, x)
+                return r
+            return self.real.reduce(a, axis=axis, **kw)
+        if isinstance(a, _np.ndarray) and a.dtype == object:
+            if a.ndim == 1:
+                return _reduce(self.f, a)
+            mv = _np.moveaxis(a, axis, 0)
+            r = mv[0]
+            for i in range(1, mv.shape[0]):
+                r = self(r, mv[i])
+            return r
+        return self.real.reduce(a, axis=axis, **kw)
+
+    def accumulate(self, a, axis=0, **kw):
+        if isinstance(a, _np.ndarray) and a.dtype == object and a.ndim == 1:
+            out = _np.empty(a.shape, dtype=object)
+            r = None
+            for i in range(a.shape[0]):
+                r = a[i] if r is None else self.f(r, a[i])
+                out[i] = r
+            return _view(out)
+        return self.real.accumulate(a, axis=axis, **kw)
+
+
+NPShim.maximum = _UFunc2(_max2, _np.maximum)
+NPShim.minimum = _UFunc2(_min2, _np.minimum)
+NPShim.fmax = NPShim.maximum
+NPShim.fmin = NPShim.minimum
 
 SHIM = NPShim(always_object=True)
